@@ -1,4 +1,5 @@
 import DaeVerif.C08.Model
+import DaeVerif.C08.Conc
 import DaeVerif.Common.Proto
 /-!
 Line-protocol driver for C08 (see harness/overlay/control/c08_test.go for the op grammar).
@@ -23,6 +24,9 @@ def hexOf (cs : List Char) : String := if cs.isEmpty then "-" else bytesToHex (c
 
 def unhexList (s : String) : Option (List (List Char)) :=
   if s = "-" then some [] else (s.splitOn ",").mapM unhex
+
+def natList (s : String) : Option (List Nat) :=
+  if s = "-" then some [] else (s.splitOn ",").mapM natOf
 
 def parseFixed (s : String) : Option (List (List Char × Int)) :=
   if s = "-" then some [] else
@@ -163,40 +167,51 @@ def handle (w : World) (line : String) : World × String :=
       (w', if (kv toks "cb") = some "1" && ip != "1" then "err" else "ok")
     | _, _, _, _, _, _, _, _, _ => (w, "bad-op")
   | "insn" :: toks =>
-    -- NormalizeAndCacheDnsResp_: resp/rcode guard, TTL of the first answer (120 when empty), clamp
+    -- NormalizeAndCacheDnsResp_: resp/rcode/class guard, smallest answer TTL (120 when empty), clamp
     match (kv toks "t").bind intOf, (kv toks "key").bind unhex, (kv toks "host").bind unhex,
-          (kv toks "qtype").bind natOf, (kv toks "rttl").bind natOf, (kv toks "ans").bind natOf,
-          (kv toks "n").bind natOf, (kv toks "ns").bind natOf, (kv toks "rcode").bind natOf, kv toks "ip" with
-    | some t, some k, some h, some q, some rttl, some a, some n, some ns, some rc, some ip =>
+          (kv toks "qtype").bind natOf, (kv toks "ttls").bind natList, (kv toks "ans").bind natOf,
+          (kv toks "ns").bind natOf, (kv toks "rcode").bind natOf, kv toks "ip" with
+    | some t, some k, some h, some q, some ttls, some a, some ns, some rc, some ip =>
       let resp := (kv toks "resp").getD "1" = "1"
       let nq := ((kv toks "nq").bind natOf).getD 1
       let cls := ((kv toks "class").bind natOf).getD 1
       if cacheable resp nq rc cls then
-        let (w', _) := step w (.insert t k h q (normTtl n rttl (((kv toks "ottl").bind natOf).getD rttl)) a n ns (ip = "1")); (w', "ok")
+        let (w', _) := step w (.insert t k h q (normTtl ttls) a ttls.length ns (ip = "1")); (w', "ok")
       else (w, "ok")
-    | _, _, _, _, _, _, _, _, _, _ => (w, "bad-op")
+    | _, _, _, _, _, _, _, _, _ => (w, "bad-op")
   | "ask" :: toks =>
-    -- a whole request through HandleWithResponseWriter_ (as-is route): `World.ask`
+    -- a whole request through HandleWithResponseWriter_: `World.ask`
     match (kv toks "t").bind intOf, (kv toks "name").bind unhex, (kv toks "qtype").bind natOf,
-          (kv toks "dst").bind unhex, (kv toks "rttl").bind natOf, (kv toks "ans").bind natOf,
-          (kv toks "n").bind natOf, (kv toks "ns").bind natOf, (kv toks "rcode").bind natOf with
-    | some t, some name, some q, some dst, some rttl, some a, some n, some ns, some rc =>
+          kv toks "route", kv toks "detail", (kv toks "ttls").bind natList, (kv toks "ans").bind natOf,
+          (kv toks "ns").bind natOf, (kv toks "rcode").bind natOf with
+    | some t, some name, some q, some kind, some detail, some ttls, some a, some ns, some rc =>
+      match parseRoute kind detail with
+      | none => (w, "bad-op")
+      | some route =>
       let cls := ((kv toks "class").bind natOf).getD 1
       let g := ((kv toks "g").bind natOf).getD 1
-      let (w', outs) := w.ask t name q cls (.asIs (some dst)) ⟨rttl, ((kv toks "ottl").bind natOf).getD rttl, a, n, ns, rc⟩ g
+      let fail := (kv toks "fail").getD "0" = "1"
+      let hops := ((kv toks "hops").bind natOf).getD 1
+      let (w', outs) := w.ask t name q cls route ⟨ttls, a, ns, rc, fail, hops⟩ g
       let showHit (s : Served) : String :=
         let an := if s.nAns > 0 then toString s.ans else "-"
         let tt := if s.visible then toString s.ttl else "-"
         s!"rcode=0 ans={an} n={s.nAns} ttl={tt}"
+      -- wfail: the reply cannot be written to the client (everything else happens all the same)
+      let wfail := (kv toks "wfail").getD "0" = "1"
+      let reply (r : String) : String := if wfail then "err=1" else r
+      if route = .reject then (w', "ask lat=0 fw=0 " ++ reply "rcode=0 ans=- n=0 ttl=-") else
       match outs.head?, outs.getLast? with
       | some (.hit s), _ =>
         -- g simultaneous hits: the same bytes for all; at most the first is told to refresh
-        (w', s!"ask lat=0 fw={if s.refresh then 1 else 0} {showHit s}")
-      | some .miss, some (.hit s) => (w', s!"ask lat={SEC} fw=1 {showHit s}")
+        (w', s!"ask lat=0 fw={if s.refresh then hops else 0} {reply (showHit s)}")
+      | some .miss, some (.hit s) =>
+        if fail then (w', s!"ask lat={hops * SEC} fw={hops} err=1") else (w', s!"ask lat={hops * SEC} fw={hops} {reply (showHit s)}")
       | _, _ =>
+        if fail then (w', s!"ask lat={hops * SEC} fw={hops} err=1") else
         -- the upstream's own message goes out
-        let an := if n > 0 then toString a else "-"
-        (w', s!"ask lat={SEC} fw=1 rcode={rc} ans={an} n={n} ttl=up")
+        let an := if ttls.length > 0 then toString a else "-"
+        (w', s!"ask lat={hops * SEC} fw={hops} {reply s!"rcode={rc} ans={an} n={ttls.length} ttl=up"}")
     | _, _, _, _, _, _, _, _, _ => (w, "bad-op")
   | "look" :: toks =>
     match (kv toks "t").bind intOf, (kv toks "key").bind unhex, kv toks "ign" with
@@ -255,6 +270,10 @@ def handle (w : World) (line : String) : World × String :=
       (w2, if n = 1 then acc.2 else acc.2 + 1)
     let (_, bad) := (List.range 50).foldl (fun acc _ => round acc) (w0, 0)
     (w, s!"hammer extra_refresh_requests={bad}")
+  | "evicthammer" :: _ =>
+    -- by `eviction_removes_only_the_expired_object_it_examined`: an eviction removes the object it judged
+    -- expired, never the fresh answer stored in the meantime
+    (w, "evicthammer lost_fresh_answers=0")
   | "biglru" :: toks =>
     -- n entries used at n distinct instants, limit `max`: by `janitor_evicts_least_recently_used`
     -- exactly `max` remain and they are the `max` most recently used ones
@@ -277,12 +296,77 @@ def handle (w : World) (line : String) : World × String :=
     | _, _ => (w, "bad-op")
   | _ => (w, "bad-op")
 
-def handleCov (s : World × Cov) (line : String) : (World × Cov) × String :=
-  if line = "cov" then
-    (s, "cov " ++ " ".intercalate (s.2.map fun p => s!"{p.1}={p.2}"))
-  else
-    let c := covOf s.1 line s.2
-    let (w, out) := handle s.1 line
-    ((w, c), out)
+/-! ### schedule replay of the transition system of `Conc.lean` (stream `c08sched`) -/
 
-def main : IO Unit := lineLoopS (initWorld, ([] : Cov)) handleCov
+open DaeVerif.C08.Conc in
+def threadStr : Thread → String
+  | .lookup .. => "start"
+  | .lookupLoaded .. => "loaded"
+  | .lookupSawUnlatched .. => "sawunlatched"
+  | .lookupDone none => "done:miss"
+  | .lookupDone (some (o, _, rf)) => s!"done:hit:{o.2.ans}:{boolStr rf}"
+  | .insert _ => "start"
+  | .insertDone => "done"
+  | .rdone => "start"
+  | .rdoneLoaded _ => "loaded"
+  | .rdoneSawTrue _ => "sawtrue"
+  | .rdoneDone => "done"
+  | .janitor _ => "start"
+  | .janitorLoaded .. => "loaded"
+  | .janitorDone => "done"
+
+open DaeVerif.C08.Conc in
+/-- `L` lookup, `I:<ttl>:<ans>` insert, `R` refresh clean-up, `J` janitor pass; every clock reads 0 -/
+def parseThread (cfg : Cfg) (spec : String) : Option Thread :=
+  match spec.splitOn ":" with
+  | ["L"] => some (.lookup 0 false)
+  | ["R"] => some .rdone
+  | ["J"] => some (.janitor 0)
+  | ["I", ttl, ans] => do
+    let t ← intOf ttl
+    let a ← natOf ans
+    pure (.insert (insEntry cfg 0 0 ['k'] ['k'] 1 t a 1 0))
+  | _ => none
+
+open DaeVerif.C08.Conc in
+def memStr (m : Mem) : String :=
+  match m.slot with
+  | none => "slot=- flag=-"
+  | some o => s!"slot={o.2.ans} flag={boolStr (m.flag.contains o.1)}"
+
+open DaeVerif.C08.Conc in
+def handleConc (st : Option (Cfg × Sys)) (line : String) : Option (Cfg × Sys) × String :=
+  match words line with
+  | "cinit" :: toks =>
+    match parseCfg toks, kv toks "th" with
+    | some cfg, some th =>
+      match (th.splitOn ",").mapM (parseThread cfg) with
+      | some ths => (some (cfg, ⟨Mem.empty, ths⟩), s!"cinit n={ths.length}")
+      | none => (st, "bad-op")
+    | _, _ => (st, "bad-op")
+  | ["cstep", i] =>
+    match st, natOf i with
+    | some (cfg, sys), some i =>
+      let sys' := sysStep Variant.real cfg sys i
+      let ts := match sys'.threads[i]? with | some th => threadStr th | none => "no-such-thread"
+      (some (cfg, sys'), s!"t={i} at={ts} {memStr sys'.mem}")
+    | _, _ => (st, "bad-op")
+  | _ => (st, "bad-op")
+
+structure DrvState where
+  w : World
+  cov : Cov
+  conc : Option (Cfg × DaeVerif.C08.Conc.Sys)
+
+def handleAll (s : DrvState) (line : String) : DrvState × String :=
+  if line.startsWith "cinit" || line.startsWith "cstep" then
+    let (c, out) := handleConc s.conc line
+    ({ s with conc := c }, out)
+  else if line = "cov" then
+    (s, "cov " ++ " ".intercalate (s.cov.map fun p => s!"{p.1}={p.2}"))
+  else
+    let c := covOf s.w line s.cov
+    let (w, out) := handle s.w line
+    ({ s with w := w, cov := c }, out)
+
+def main : IO Unit := lineLoopS (⟨initWorld, [], none⟩ : DrvState) handleAll
